@@ -1460,7 +1460,7 @@ method or constructor of some type."""
         split = self._split_uscored_by_type(subsymbol)
         if split is None:
             if func.is_constructor:
-                if uscored_prefix in func.symbol:
+                if subsymbol.startswith(uscored_prefix + '_'):
                     subsym_idx = func.symbol.find(subsymbol)
                     func.name = func.symbol[(subsym_idx + len(uscored_prefix) + 1):]
                 name = func.name
